@@ -51,14 +51,22 @@ func (d *def) sexp() sx.Sexp {
 	if d.hasSer {
 		ser = atoms("l", d.ser)
 	}
+	out := []sx.Sexp{p, sx.L(as...), eq, sx.A(d.eit), ser}
 	if len(d.consts) > 0 {
 		ks := []sx.Sexp{}
 		for _, k := range d.consts {
 			ks = append(ks, sx.L(sx.A(k.name), k.dflt.sexp()))
 		}
-		return sx.L(p, sx.L(as...), eq, sx.A(d.eit), ser, sx.T("k", ks...))
+		out = append(out, sx.T("k", ks...))
 	}
-	return sx.L(p, sx.L(as...), eq, sx.A(d.eit), ser)
+	if len(d.params) > 0 {
+		ps := []sx.Sexp{}
+		for _, q := range d.params {
+			ps = append(ps, sx.L(sx.A(q.name), q.ty.sexp()))
+		}
+		out = append(out, sx.T("p", ps...))
+	}
+	return sx.L(out...)
 }
 
 func (a *action) sexp() sx.Sexp {
@@ -403,6 +411,31 @@ func genChain(r *rand.Rand) []def {
 				v := witness(r, []*ty{tInt, tStr, {k: "bool"}, {k: "float"}, {k: "undef"}}[r.Intn(5)])
 				t := map[string]string{"i": "int", "s": "str", "b": "bool", "f": "float", "u": "undef"}[v.k]
 				d.consts = append(d.consts, attr{name: name, ty: &ty{k: t}, kind: "c", dflt: &v})
+			}
+		}
+		if r.Intn(7) == 0 {
+			// type_parameters: named like an own or inherited attribute (the parameter is bound when a construction gives that
+			// attribute a value of the parameter's type), sometimes a name no attribute has (never bound), rarely an inherited
+			// parameter again (refused)
+			var cand []string
+			for _, a := range d.attrs {
+				cand = append(cand, a.name)
+			}
+			if d.parent >= 0 {
+				for _, a := range mkSpec(defs).all[d.parent] {
+					cand = append(cand, a.name)
+				}
+			}
+			cand = append(cand, "tp")
+			for k := 1 + r.Intn(2); k > 0; k-- {
+				name := cand[r.Intn(len(cand))]
+				dup := false
+				for _, q := range d.params {
+					dup = dup || q.name == name
+				}
+				if !dup {
+					d.params = append(d.params, attr{name: name, ty: []*ty{tInt, tStr, tAny, {k: "bool"}, {k: "float"}}[r.Intn(5)]})
+				}
 			}
 		}
 		defs = append(defs, d)
@@ -948,6 +981,105 @@ func exhaustiveTypes(g *core.G) {
 	}
 }
 
+// type parameters, a small universe exhaustively: one definition with `a => Integer` and the parameter's attribute `p` in
+// four shapes (Optional[Integer] / Integer with default 3 / required Integer / none), type_parameters {p => Integer} /
+// {p => String} / {q => Integer} / {p => Integer, q => String}; equality absent / on `a` / on `p`; include-type absent / false;
+// constructions that leave `p` out, give it its default and give it another value, by position and by name (a parameter is
+// bound when the value is given and is not the default: the instance then has the type T[p => v]); all pairs compared, all
+// init-hashes, instance-of; then the two-level forms (parameter declared by the parent, attribute by the child, and the
+// refused re-declaration)
+func exhaustiveParams(g *core.G) {
+	tOptI := &ty{k: "opt", elt: tInt}
+	pShapes := []*attr{{name: "p", ty: tOptI, kind: "n"}, {name: "p", ty: tInt, kind: "n", dflt: iv(3)}, {name: "p", ty: tInt, kind: "n"}, nil}
+	paramSets := [][]attr{{{name: "p", ty: tInt}}, {{name: "p", ty: tStr}}, {{name: "q", ty: tInt}}, {{name: "p", ty: tInt}, {name: "q", ty: tStr}}}
+	for _, ps := range pShapes {
+		for _, params := range paramSets {
+			for _, eq := range []string{"-", "a", "p"} {
+				if eq == "p" && ps == nil {
+					continue
+				}
+				for _, eit := range []string{"-", "f"} {
+					d := def{parent: -1, attrs: []attr{{name: "a", ty: tInt, kind: "n"}}, eqKind: "-", eit: eit, params: params}
+					if ps != nil {
+						d.attrs = append(d.attrs, *ps)
+					}
+					if eq != "-" {
+						d.eqKind, d.eq = "l", []string{eq}
+					}
+					defs := []def{d}
+					s := mkSpec(defs)
+					var acts []action
+					one, five := val{k: "i", i: 1}, val{k: "i", i: 5}
+					if ps == nil {
+						acts = append(acts, action{op: "newpos", t: 0, vals: []val{one}}, action{op: "newnamed", t: 0, names: []string{"a"}, vals: []val{one}})
+					} else {
+						// the positions follow the layout (required first)
+						mk := func(pv *val, named bool) action {
+							var names []string
+							var vals []val
+							for _, q := range s.pos[0] {
+								switch {
+								case q.name == "a":
+									names, vals = append(names, "a"), append(vals, one)
+								case pv != nil:
+									names, vals = append(names, "p"), append(vals, *pv)
+								}
+							}
+							if named {
+								return action{op: "newnamed", t: 0, names: names, vals: vals}
+							}
+							return action{op: "newpos", t: 0, vals: vals}
+						}
+						var dfl *val
+						if ps.dflt != nil {
+							dfl = ps.dflt
+						} else if ps.ty.k == "opt" {
+							dfl = &val{k: "u"}
+						}
+						for _, named := range []bool{false, true} {
+							if dfl != nil {
+								acts = append(acts, mk(nil, named), mk(dfl, named))
+							}
+							acts = append(acts, mk(&five, named), mk(&val{k: "i", i: 6}, named), mk(&val{k: "s", s: "x"}, named))
+						}
+					}
+					n := len(acts)
+					for o := 0; o < n; o++ {
+						acts = append(acts, action{op: "inithash", o: o}, action{op: "get", o: o, name: "p"}, action{op: "inst", t: 0, o: o})
+						for o2 := 0; o2 < n; o2++ {
+							acts = append(acts, action{op: "eq", o: o, o2: o2})
+						}
+					}
+					g.Emit(opLine(defs, acts))
+				}
+			}
+		}
+	}
+	// two levels
+	for _, childParams := range [][]attr{nil, {{name: "p", ty: tInt}}, {{name: "b", ty: tInt}}} {
+		for _, eit := range []string{"-", "f"} {
+			defs := []def{
+				{parent: -1, attrs: []attr{{name: "a", ty: tInt, kind: "n"}}, eqKind: "-", eit: eit, params: []attr{{name: "p", ty: tInt}}},
+				{parent: 0, attrs: []attr{{name: "p", ty: tOptI, kind: "n"}, {name: "b", ty: tInt, kind: "n", dflt: iv(0)}}, eqKind: "-", eit: eit, params: childParams}}
+			one, five, u := val{k: "i", i: 1}, val{k: "i", i: 5}, val{k: "u"}
+			acts := []action{
+				{op: "newpos", t: 1, vals: []val{one}}, {op: "newpos", t: 1, vals: []val{one, five}}, {op: "newpos", t: 1, vals: []val{one, u}},
+				{op: "newpos", t: 1, vals: []val{one, five, {k: "i", i: 7}}}, {op: "newpos", t: 1, vals: []val{one, u, {k: "i", i: 7}}},
+				{op: "newnamed", t: 1, names: []string{"a"}, vals: []val{one}}, {op: "newnamed", t: 1, names: []string{"a", "p"}, vals: []val{one, five}},
+				{op: "newnamed", t: 1, names: []string{"a", "p"}, vals: []val{one, u}}, {op: "newnamed", t: 1, names: []string{"p", "b", "a"}, vals: []val{five, {k: "i", i: 7}, one}},
+				{op: "newpos", t: 0, vals: []val{one}}, {op: "newnamed", t: 0, names: []string{"a"}, vals: []val{one}}}
+			n := len(acts)
+			for o := 0; o < n; o++ {
+				acts = append(acts, action{op: "inithash", o: o}, action{op: "inst", t: 0, o: o}, action{op: "inst", t: 1, o: o})
+				for o2 := 0; o2 < n; o2++ {
+					acts = append(acts, action{op: "eq", o: o, o2: o2})
+				}
+			}
+			g.Emit(opLine(defs, acts))
+		}
+	}
+}
+
 // ---- entry --------------------------------------------------------------------------------------------------------------------
 
 // attribute-less types (pcore treats a type without attributes whose ancestors have none either as an INTERFACE, matched
@@ -990,6 +1122,7 @@ func gen(g *core.G) {
 	exhaustive2(g)
 	exhaustiveDeep(g)
 	exhaustiveTypes(g)
+	exhaustiveParams(g)
 	genTParam(g)
 	genInterfaces(g)
 	genIface(g)
